@@ -115,16 +115,23 @@ def acceptsDecimal (total frac : Nat) (signed : Bool) (cs : List Char) : Bool :=
     (!neg || (ip ++ fp).any (· != '0')) &&
     decide (totalDigits ip fp ≤ total)
 
+/-- `n` further groups, each a separator followed by `k` lower-case hex digits, then the end -/
+def hexTail (k : Nat) (sep : List Char) : Nat → List Char → Bool
+  | 0, cs => cs.isEmpty
+  | n + 1, cs =>
+    sep.isPrefixOf cs &&
+      let r := cs.drop sep.length
+      decide (k ≤ r.length) && (r.take k).all isLowerHex && hexTail k sep n (r.drop k)
+
 def acceptsHex (bytes : Nat) (group : Option (Nat × String)) (cs : List Char) : Bool :=
   match group with
   | none => cs.length == 2 * bytes && cs.all isLowerHex
   | some (g, sep) =>
     if g == 0 then false else
-    let n := (2 * bytes) / (2 * g)
-    -- n groups of 2g lower-case hex digits joined by sep
-    let parts := (String.ofList cs).splitOn sep
-    if sep.isEmpty then false else
-    decide (n ≥ 1) && parts.length == n && parts.all fun p => p.length == 2 * g && p.toList.all isLowerHex
+    let n := bytes / g
+    let k := 2 * g
+    -- n groups of 2g lower-case hex digits joined by sep (matched left to right, like the pattern)
+    decide (1 ≤ n) && decide (k ≤ cs.length) && (cs.take k).all isLowerHex && hexTail k sep.toList (n - 1) (cs.drop k)
 
 def acceptsUuid (cs : List Char) : Bool :=
   let parts := splitOnChar '-' cs
@@ -212,7 +219,7 @@ inductive Family
   | decimal (total frac : Nat) (signed : Bool) | hex (bytes : Nat) (group : Option (Nat × String))
   | uuid | boolean | enum (values : List String) | ipv4 | ipv6 | geo | base64 (maxLen : Nat)
   | string (maxLen : Nat) (case : String) (unicode : Bool) | uri | file | unknown
-deriving Repr
+deriving Repr, DecidableEq
 
 def parseNat? (s : String) : Option Nat :=
   if allDigits s.toList then some (natVal s.toList) else none
@@ -268,10 +275,10 @@ def acceptsString (maxLen : Nat) (case : String) (unicode : Bool) (info : StrInf
   (if case == "lc" then !info.hasLu else if case == "uc" then !info.hasLl else true) &&
   (info.regexOk.getD true)
 
-/-- The gate's verdict on one object value. -/
-def accepts (dt : String) (info : StrInfo) (value : String) : Bool :=
+/-- The value space recogniser of a data type family. -/
+def acceptsFam (f : Family) (info : StrInfo) (value : String) : Bool :=
   let cs := value.toList
-  match family dt with
+  match f with
   | .datetime => acceptsDatetime cs
   | .sequence => acceptsSequence cs
   | .int k s => acceptsInt k s cs
@@ -288,6 +295,10 @@ def accepts (dt : String) (info : StrInfo) (value : String) : Bool :=
   | .string n c u => acceptsString n c u info cs
   | .uri | .file => true
   | .unknown => false
+
+/-- The gate's verdict on one object value. -/
+def accepts (dt : String) (info : StrInfo) (value : String) : Bool :=
+  acceptsFam (family dt) info value
 
 /-! ### structure of an event -/
 
@@ -324,27 +335,109 @@ def sourceUriOk (s : String) : Bool :=
 
 def parentOk (s : String) : Bool := s.length == 40 && s.toList.all isLowerHex
 
+/-- one `(property name, objects)` entry: the property is declared and every object is in the
+value space of its data type (an entry without objects is no element at all) -/
+def propOk (et : GEventType) (infoOf : String → String → StrInfo) (pv : String × List String) : Bool :=
+  match et.props.find? (·.name == pv.1) with
+  | none => pv.2.isEmpty
+  | some p => pv.2.all fun v => accepts p.dataType (infoOf pv.1 v) v
+
+/-- mandatory properties have an object, single-valued ones at most one -/
+def cardOk (e : Event) (p : GProp) : Bool :=
+  let n := (e.objects p.name).length
+  (p.optional || decide (1 ≤ n)) && (p.multivalued || decide (n ≤ 1))
+
+def attValueOk (base64 : Bool) (v : String) : Bool :=
+  if base64 then (match base64DecodedLength v.toList with | some n => decide (1 ≤ n) | none => false)
+  else decide (1 ≤ v.length)
+
+/-- one `(attachment name, [(id, value)])` entry: declared, ids of 1..40 characters, values
+non-empty and (for base64 attachments) correctly encoded -/
+def attOk (et : GEventType) (a : String × List (String × String)) : Bool :=
+  match et.attachments.find? (·.name == a.1) with
+  | none => a.2.isEmpty
+  | some d => a.2.all fun iv =>
+      decide (1 ≤ iv.1.length) && decide (iv.1.length ≤ 40) && attValueOk d.base64 iv.2
+
+/-- foreign attributes must carry a namespace other than EDXML's -/
+def foreignOk (kv : String × String) : Bool :=
+  kv.1.startsWith "{" && !kv.1.startsWith "{}" && !kv.1.startsWith "{http://edxml.org/edxml}"
+
 /-- The verdict of the gate on an event. `infoOf p v` supplies the character-class facts about
-object `v` of property `p`; `attOk a id v` whether an attachment value is acceptable content
-(non-empty string, or base64 of at least four bytes). -/
+object `v` of property `p`. -/
 def gate (et : GEventType) (infoOf : String → String → StrInfo) (e : Event) : Bool :=
   eventTypeAttrOk e.type && sourceUriOk e.source && e.parents.all parentOk &&
-  -- only declared properties, every object in the value space
-  (e.props.all fun pv => match et.props.find? (·.name == pv.1) with
-    | none => pv.2.isEmpty
-    | some p => pv.2.all fun v => accepts p.dataType (infoOf pv.1 v) v) &&
-  -- cardinality
-  (et.props.all fun p =>
-    let n := (e.objects p.name).length
-    (p.optional || decide (1 ≤ n)) && (p.multivalued || decide (n ≤ 1))) &&
-  -- attachments
-  (e.atts.all fun a => match et.attachments.find? (·.name == a.1) with
-    | none => a.2.isEmpty
-    | some d => a.2.all fun iv =>
-        decide (1 ≤ iv.1.length) && decide (iv.1.length ≤ 40) &&
-        (if d.base64 then (match base64DecodedLength iv.2.toList with | some n => decide (4 ≤ n) | none => false)
-         else decide (1 ≤ iv.2.length))) &&
-  -- foreign attributes must carry a namespace other than EDXML's
-  (e.foreign.all fun kv => kv.1.startsWith "{" && !kv.1.startsWith "{}" && !kv.1.startsWith "{http://edxml.org/edxml}")
+  e.props.all (propOk et infoOf) && et.props.all (cardOk e) && e.atts.all (attOk et) &&
+  e.foreign.all foreignOk
+
+/-! ### the validator and its schema caches (edxml/event_validator.py)
+
+`EventValidator` keeps, per event type name and per flavour (namespaced or not), the schema it
+compiled, and `__ontology_version`, which is initialised to zero and never assigned again. The
+ontology is abstracted to its event type definitions and its change counter (C12). -/
+
+structure GOnt where
+  types : List (String × GEventType) := []
+  version : Nat := 0
+
+inductive OntOp
+  /-- a mutator after which event type `name` is defined as `et` (created or changed) -/
+  | define (name : String) (et : GEventType)
+  /-- `delete_event_type` -/
+  | remove (name : String)
+  /-- any other notified mutation -/
+  | touch
+  /-- `Ontology.clear()`: resets the counter (C12 known finding) -/
+  | clear
+
+def GOnt.lookup (o : GOnt) (name : String) : Option GEventType :=
+  (o.types.find? (·.1 == name)).map (·.2)
+
+def GOnt.apply (o : GOnt) : OntOp → GOnt
+  | .define n et => { types := (n, et) :: o.types.filter (·.1 != n), version := o.version + 1 }
+  | .remove n => { types := o.types.filter (·.1 != n), version := o.version + 1 }
+  | .touch => { o with version := o.version + 1 }
+  | .clear => { types := [], version := 0 }
+
+structure VState where
+  seen : Nat := 0
+  /-- (event type name, namespaced flavour) ↦ the definition the cached schema was compiled from -/
+  cache : List ((String × Bool) × GEventType) := []
+
+/-- `EventValidator.is_valid(event)`: the verdict and the validator's next state. -/
+def VState.validate (v : VState) (o : GOnt) (infoOf : String → String → StrInfo) (namespaced : Bool)
+    (e : Event) : Bool × VState :=
+  let cache := if o.version > v.seen then [] else v.cache
+  match o.lookup e.type with
+  | none => (false, { v with cache := cache })
+  | some et =>
+    match cache.find? (·.1 == (e.type, namespaced)) with
+    | some hit => (gate hit.2 infoOf e, { v with cache := cache })
+    | none => (gate et infoOf e, { v with cache := ((e.type, namespaced), et) :: cache })
+
+/-- A history: ontology mutations interleaved with validations by one long-lived validator. Each
+validation carries the character-class and regular-expression facts about its objects (computed
+against the ontology as it is at that moment). -/
+inductive HistOp
+  | mutate (op : OntOp)
+  | validate (namespaced : Bool) (e : Event) (infoOf : String → String → StrInfo)
+
+def runHist : GOnt → VState → List HistOp → List Bool
+  | _, _, [] => []
+  | o, v, .mutate op :: rest => runHist (o.apply op) v rest
+  | o, v, .validate ns e infoOf :: rest =>
+    let r := v.validate o infoOf ns e
+    r.1 :: runHist o r.2 rest
+
+/-- What a validator without any memory answers. -/
+def freshVerdict (o : GOnt) (infoOf : String → String → StrInfo) (e : Event) : Bool :=
+  match o.lookup e.type with
+  | none => false
+  | some et => gate et infoOf e
+
+def specHist : GOnt → List HistOp → List Bool
+  | _, [] => []
+  | o, .mutate op :: rest => specHist (o.apply op) rest
+  | o, .validate _ e infoOf :: rest => freshVerdict o infoOf e :: specHist o rest
 
 end Edxml.Gate
